@@ -49,6 +49,10 @@ CHECKS = {
    text="For the numpy, pandas(+pyarrow), polars and pyspark dtype engines the check reads the live registries and drives the real Engine.dtype, ==, hash, str and DataType.check over every equivalents key, every registered class, every dispatch-registered native class, hand-transcribed families of documented-equivalent spellings, all numpy aliases and seeded parameterisations (time zones, units, categories, decimal precision/scale, nested Arrow/polars/pyspark types). Asserted: every spelling resolves; resolution is idempotent; equivalent spellings resolve to equal, equally hashed objects; the printed name of a primitive type resolves back to it (numpy, pandas, pyspark); every resolved type recognises itself; t1.check(t2) over all ordered pairs of physical types implies equal (kind, signedness, width); a spelling resolves to the same object before and after the rest of the run. The registry part is complete (exhaustive: true); parameters are sampled.",
    note="Native (kind, sign, width) taken from numpy/pandas/pyarrow/polars/pyspark themselves; the documented-equivalence table is transcribed by hand from the docs (pvm/c09_engines.py). Not judged (counted undecided): round trip of Decimal, parameterised Category, Period/Sparse/Interval/pydantic/python-generic types, Arrow nested/binary/decimal/dictionary types and names pandas cannot parse; datetime units other than ns in the pandas engine (documented unsupported). Only the pyspark dtype engine is covered, not pyspark.sql validation.",
    ref="4/C09"),
+ "C10": dict(cat="exploration", tech="icontract post-conditions on the real try_coerce of every registered DataType class + element-wise coercion oracle over generated containers",
+   text="The real try_coerce of every DataType class registered with the pandas (+pyarrow), numpy and polars engines is run on generated Series / Index / DataFrame / ndarray / polars columns (width limits, 2**53+-1, NaN/inf, numeric and non-numeric strings, timestamps, Decimal, nested values, nulls, masked / arrow / categorical storage). It is observed by icontract post-conditions on every class (same length and labels, result passes the type's own check) and by an element-wise oracle: exact values preserved, nulls kept, coercing twice equals once, and on failure a ParserError whose failure cases equal the elements whose individual conversion fails. The schema-level paths (Column / SeriesSchema / Index / frame dtype=, pandas and polars) must surface the same failure cases under DATATYPE_COERCION and must not reject successfully coerced data with a dtype error.",
+   note="'Exact' conversion is decided by pvm/c10_gen.exact; lossy numeric coercion is not judged. Individual convertibility = the type's own coerce_value (pandas/numpy), the one-row slice (polars). Not judged: nulls among the failure cases of nullable pandas types; null rows of polars dtype pairs with no cast at all; coerce_value's return value when numpy answers in another unit; dtype objects pandas cannot hash; PydanticModel row failure cases; containers that fail as a whole although every element converts. Trusted: pandas/numpy/polars/pyarrow casts as the reference for values, icontract.",
+   ref="4/C10"),
  "C11": dict(cat="exploration", tech="reference-model oracle over row identities of the real validate(lazy=True) output; docs examples executed",
    text="Rows carry a hidden identity (unique int / string / MultiIndex labels; content+order on polars); after the real validate with drop_invalid_rows=True the surviving identities and values are compared with the rows on which the reference model finds every row-level constraint satisfied, in order; cases with a non-row violation must raise SchemaErrors (never return, never TypeError). The four examples of docs/source/drop_invalid_rows.md run as fixed cases.",
    note="Unique non-null index labels (documented limitation); exact coercion only (int/float/datetime retyping); SeriesSchema with a failing index schema not judged; trusts pvm/model.py.",
